@@ -138,6 +138,10 @@ class Scanner:
             return utils.latex_error('bad \\verb argument',
                                         start, latex, self.parms)
         start_arg = start + len('\\verb')
+        if latex.startswith('*', start_arg):
+            # \verb*: only makes spaces visible
+            start_arg += 1
+            self.pos = start_arg
         if start_arg >= self.max_pos:
             return verb_err()
         end_arg = latex[start_arg] + '\n'
